@@ -115,7 +115,7 @@ def chunk_tasks(iterable_of_args: Iterable, iterable_len: Optional[int] = None,
         # If the iterable has more elements than the given iterable length, we stop
         if iterable_len is not None and n_elements_returned + len(chunk) > iterable_len:
             chunk = chunk[:iterable_len - n_elements_returned]
-            if chunk:
+            if len(chunk) > 0:
                 yield chunk
             return
 
